@@ -31,9 +31,9 @@ CHECKS = {
          "§4.18",
          "Not decided: equality with BIP32 beyond the layout facts; validity of signatures under the child key."),
  "C19": ("must-pass-through emission gates with same-variable load identity, defer-order and fork-join rules, value identity of pre-parameter relations on canonical terms, inductive loop-exit guards of samplers",
-         "A (p,q) pair is emitted only after q.ProbablyPrime, Pocklington(p), bitlen(q) = requested-1 and Validate (q prime, 2q+1 = p, p prime) accepted the very pair sent; the generator's defers execute cancel -> Wait -> close, workers call Done once, poll ctx each candidate, send at most one error into a channel with room for every worker; both pre-parameter producers send exactly once on buffered channels; NTilde = P*Q of two distinct pairs, H1 = f^2, H2 = H1^alpha, Beta = alpha^-1 mod pq, Paillier key from an independent 2048-bit call; samplers return only values behind their loop-exit guards.",
+         "A (p,q) pair is emitted only after q.ProbablyPrime, Pocklington(p), bitlen(q) = requested-1 and Validate (q prime, 2q+1 = p, p prime) accepted the very pair sent; the generator's defers execute cancel -> Wait -> close, workers call Done once, poll ctx each candidate, send a prime only as an arm of a select that also watches ctx.Done() and returns on it, send at most one error into a channel with room for every worker; both pre-parameter producers send exactly once on buffered channels; NTilde = P*Q of two distinct pairs, H1 = f^2, H2 = H1^alpha, Beta = alpha^-1 mod pq, Paillier key from an independent 2048-bit call; samplers return only values behind their loop-exit guards.",
          "§4.19",
-         "Not decided: primality, exact bit lengths, promptness, goroutine-leak freedom when the prime channel fills, that h1,h2 generate each other."),
+         "Not decided: primality, exact bit lengths, wall-clock promptness, that h1,h2 generate each other."),
  "C20": ("interprocedural ownership/alias effect analysis over *big.Int objects, single-store provenance of nonces, JSON-closure type walk, field-set agreement of the subset copy",
          "No signing-path instruction overwrites, element-stores into or relabels an object owned by the caller's key data (one declared exception); the ECDSA k/gamma and EdDSA r_i nonces are stored once per session directly from GetRandomPositiveInt(round.Rand(), N); both save-data types are closed under encoding/json (exported fields or symmetric custom codecs with identical auxiliary types); the subset builder copies every per-party slice at one (j, savedIdx) pair and every other field group whole, into slices of its own.",
          "§4.20",
@@ -87,7 +87,7 @@ CHECKS = {
          "§4.15",
          "Not decided: shares lie on one polynomial, subset reconstruction (ReConstruct's algebra), rejection of every altered component."),
  "C16": ("structural matching of the framing loops on go/ssa (append chains, value identity of the length operand), sibling agreement, layout of commit/open, inductive phi invariants for the parser bounds",
-         "The three hash functions frame their input as LE64(count) then, for every input in order without a skip edge, bytes | delimiter | LE64(len of those same bytes); the tagged variant prefixes H(tag) twice; commitments are H(r, secrets...) over exactly D with fresh 256-bit r, Verify recomputes and rejects on inequality, DeCommit returns D[1:] only after Verify; the parts builder emits len then part, and the parser's slice bounds are guarded (0 <= n <= MaxPartSize, hi <= len) as inductive invariants. Injectivity of that layout is a three-line paper argument in DESIGN §4.16.",
+         "The three hash functions frame their input as LE64(count) then, for every input in order without a skip edge, bytes | delimiter | LE64(len of those same bytes); the tagged variant prefixes H(tag) twice; commitments are H(r, secrets...) over exactly D with fresh 256-bit r, Verify recomputes and rejects on inequality, DeCommit returns D[1:] only after Verify; the parts builder keeps every part handed in (empty or not) and emits len then part, the parser's slice bounds are guarded (0 <= n <= MaxPartSize, hi <= len) as inductive invariants, an input that ends right after a length prefix yields the (empty) part or an error, and a one-element input reaches the parser; the framing may be factored into private helpers (read through). Injectivity of that layout is a three-line paper argument in DESIGN §4.16.",
          "§4.16",
          "Not decided: collision resistance of SHA-512/256; sign-forgetting of Bytes() (inputs assumed non-negative)."),
 }
